@@ -323,5 +323,13 @@ PROPS["C18"]["explanation"] = PROPS["C18"]["explanation"].replace(" Not decided 
 PROPS["C19"]["rules"] = PROPS["C19"]["rules"] + [rules_idioms.rule_alloc_len, rules_idioms.rule_pair_an]
 PROPS["C19"]["explanation"] += " (ALLOCLEN) a byte-wise buffer comparison in hdiff covers the size both buffers were allocated with. (PAIRAN) annotation loops of the tools are bounded by the count of the kind they select."
 
+PROPS["C12"]["rules"] = PROPS["C12"]["rules"] + [rules_dd.rule_ddblock_extent]
+PROPS["C12"]["explanation"] += " (DDBLOCKSZ) every offset sum over DD_SZ-sized descriptors counts the 6-byte block header. (GUARDSTORE) a high-water mark updated under `if (E > mark)` is set to E."
+PROPS["C17"]["rules"] = PROPS["C17"]["rules"] + [rules_dd.rule_ddblock_extent]
+PROPS["C17"]["explanation"] += " (DDBLOCKSZ) the end-of-file mark and descriptor positions computed from a DD block's offset count the block header as well as its descriptors."
+
+PROPS["C05"]["rules"] = PROPS["C05"]["rules"] + [rules_idioms.rule_window_test]
+PROPS["C05"]["explanation"] += " (WINDOW) the test whether a bit-file position lies in the buffered block is the half-open one, [block_offset, block_offset + BITBUF_SIZE)."
+
 NOT_APPLICABLE = {}
 
